@@ -212,12 +212,19 @@ class C15Runner:
             meta, cfg = gen_desc.gen_case(rng)
             cases.append((f"gen:{seed}:{i}", cfg))
         # a single endpoint under ID routing (zero-bit id_t)
-        one = gen_desc.gen_star(rng, "ID", "axi", k=2)
-        if one:
-            one = dict(one, endpoints=one["endpoints"][:1],
-                       connections=[c for c in one["connections"] if one["endpoints"][1]["name"] not in (c["src"], c["dst"])])
-            if one["endpoints"][0].get("mgr_port_protocol") and one["endpoints"][0].get("sbr_port_protocol"):
-                cases.append(("one-endpoint", one))
+        one = gen_desc.base_cfg(rng, "one", "axi", "ID", 32)
+        one.update(endpoints=[{"name": "solo", "addr_range": {"base": 0x1000, "size": 0x1000},
+                               "mgr_port_protocol": ["axi_in"], "sbr_port_protocol": ["axi_out"]}],
+                   routers=[{"name": "r"}], connections=[{"src": "solo", "dst": "r"}])
+        cases.append(("one-endpoint", one))
+        # an endpoint shifted by its own xy_id_offset (x != y: key order of the mapping must not matter)
+        xo = gen_desc.gen_mesh(rng, "XY", "axi", m=2, n=2, sides=[], partial_local=False)
+        if xo:
+            xo = json.loads(json.dumps(xo))
+            xo["endpoints"].append({"name": "far", "addr_range": {"base": 0x7000_0000, "size": 0x100},
+                                    "sbr_port_protocol": ["axi_out"], "xy_id_offset": {"x": 3, "y": 1}})
+            xo["connections"].append({"src": "far", "dst": xo["routers"][0]["name"], "dst_idx": [1, 0], "dst_dir": "East"})
+            cases.append(("xy-offset", xo))
         # degenerate widths: one column / one row under XY (zero-bit coordinate fields)
         for (m, n, sides) in [(1, 3, ["North"]), (3, 1, ["East"])]:
             c = gen_desc.gen_mesh(rng, "XY", rng.choice(["axi", "narrow-wide"]), m=m, n=n, sides=sides, partial_local=False)
